@@ -1,7 +1,7 @@
 #!/bin/sh
 # Build the framework from files on disk only (offline).
 set -e
-cd /verif
+cd "$(dirname "$0")"
 python3 tools/extract.py
 (cd lean && lake build)
 (cd harness && cp -n /repo/Cargo.lock Cargo.lock 2>/dev/null || true; CARGO_NET_OFFLINE=true cargo build --release --offline)
